@@ -197,7 +197,13 @@ func getNalusFromBytestream(f io.Reader) ([][]byte, error) {
 	}
 
 	nalus := avc.ExtractNalusFromByteStream(fullRaw)
-	return nalus, nil
+	nonEmpty := nalus[:0]
+	for _, nalu := range nalus {
+		if len(nalu) > 0 { // adjacent start codes give a zero-length NAL unit without header byte
+			nonEmpty = append(nonEmpty, nalu)
+		}
+	}
+	return nonEmpty, nil
 }
 
 func parseMp4File(w io.Writer, r io.Reader, codec string, verbose bool) error {
